@@ -300,8 +300,24 @@ PASS_THROUGH = (
     "core::iter::traits::iterator::Iterator::next",
     "core::iter::traits::iterator::Iterator::enumerate",
     "core::iter::traits::collect::IntoIterator::into_iter",
-    "core::slice::<impl [T]>::iter",
-    "core::slice::<impl [T]>::iter_mut",
+    "core::slice::iter",
+    "core::slice::iter_mut",
+    "core::slice::last",
+    "core::slice::first",
+    "core::slice::get",
+    "alloc::vec::Vec::drain",
+    "alloc::vec::Vec::pop",
+    "alloc::vec::Vec::iter",
+    "std::collections::hash::map::HashMap::get",
+    "std::collections::hash::map::HashMap::iter",
+    "std::collections::hash::map::HashMap::values",
+    "std::collections::hash::map::HashMap::remove",
+    "alloc::collections::btree::map::BTreeMap::get",
+    "alloc::collections::btree::map::BTreeMap::remove",
+    "im_rc::ord::map::OrdMap::get",
+    "im_rc::ord::map::OrdMap::remove",
+    "core::cell::Ref::map",
+    "core::cell::RefCell::take",
     "smallvec::SmallVec::iter",
     "core::ops::try_trait::Try::branch",
     "core::ops::index::Index::index",
